@@ -614,6 +614,7 @@ pub fn check(tier: &str, seed: u64) -> i32 {
         .set("daemon_firings_checked", Json::Int(stats.get("c16.daemon_firings_checked") as i128))
         .set("reach", stats.counters_json("c16.reach."))
         .set("unjudged", stats.counters_json("c16.unjudged."))
+        .set("reach_probes_at_zero", crate::report::probes_at_zero(&stats, &["c16.reach.seven_as_range_end","c16.reach.name_range","c16.reach.step_equals_max_plus_1","c16.reach.list","c16.reach.both_day_fields_given","c16.reach.mutant_still_valid","c16.reach.valid_but_never_fires(parse_only)","c16.verdict.reject","c16.daemon_firings_checked"]))
         .set("faults", Json::s("none: C16 uses the clock seam only to observe; no fault is injected (weakest fit of the four, see DESIGN 5.1)"))
         .set("expressions_per_hour", Json::Int((n_expr as f64 / wall.max(1e-9) * 3600.0) as i128))
         .set("real_components", Json::s("cron.rs parse/FromStr/Iterator::next and everything below it"))
